@@ -78,7 +78,8 @@ func genFECase(seed uint64, i int) feCase {
 	analysis := strings.HasSuffix(c.Binary, "-analysis")
 	kinds := []string{"malformed-go-version", "unknown-failOn", "rules-pattern-without-match", "empty-selection", "empty-selection-by-disable", "unparsable-parameter",
 		"torn-write", "lost-write", "lost-package", "flipped-identifier", "mixed-package-clauses", "none",
-		"torn-write-at-zero", "torn-in-package-clause", "flipped-keyword", "comment-only-file", "torn-test-file"}
+		"torn-write-at-zero", "torn-in-package-clause", "flipped-keyword", "comment-only-file", "torn-test-file",
+		"rules-valid-then-pattern-without-match", "unknown-failOn-with-other-checkers"}
 	c.Fault = kinds[(i/len(frontends))%len(kinds)]
 	switch c.Fault {
 	case "malformed-go-version":
@@ -89,6 +90,10 @@ func genFECase(seed uint64, i int) feCase {
 		c.Class, c.Flags, c.Names = "config", []string{"-enable=ruleguard", "-disable=", "-@ruleguard.rules=rules.go", "-@ruleguard.failOn=bogus"}, []string{"bogus"}
 	case "rules-pattern-without-match":
 		c.Class, c.Flags, c.Names = "config", []string{"-enable=ruleguard", "-disable=", "-@ruleguard.rules=nomatch-*.go"}, []string{"nomatch-*.go"}
+	case "rules-valid-then-pattern-without-match":
+		c.Class, c.Flags, c.Names = "config", []string{"-enable=ruleguard,assignOp", "-disable=", "-@ruleguard.rules=rules.go,nomatch-*.go"}, []string{"nomatch-*.go"}
+	case "unknown-failOn-with-other-checkers":
+		c.Class, c.Flags, c.Names = "config", []string{"-enable=ruleguard,assignOp,switchTrue", "-disable=", "-@ruleguard.rules=rules.go", "-@ruleguard.failOn=bogus"}, []string{"bogus"}
 	case "empty-selection":
 		c.Class, c.Flags, c.Names = "config", []string{"-enable=nosuchchecker", "-disable="}, []string{"empty", "nosuchchecker"}
 	case "empty-selection-by-disable":
